@@ -72,6 +72,24 @@ def distinct(xs):
     return len(set(map(repr, xs))) == len(xs) if any(isinstance(x, (list, dict, set)) for x in xs) else len(set(xs)) == len(xs)
 
 
+class _Lazy(ast.NodeTransformer):
+    """implies(a, b) / ite(c, a, b) must not evaluate the guarded operand eagerly at run time."""
+
+    def visit_Call(self, node):
+        self.generic_visit(node)
+        if isinstance(node.func, ast.Name) and node.func.id == "implies" and len(node.args) == 2:
+            return ast.copy_location(ast.BoolOp(op=ast.Or(), values=[ast.UnaryOp(op=ast.Not(), operand=node.args[0]), node.args[1]]), node)
+        if isinstance(node.func, ast.Name) and node.func.id == "ite" and len(node.args) == 3:
+            return ast.copy_location(ast.IfExp(test=node.args[0], body=node.args[1], orelse=node.args[2]), node)
+        return node
+
+
+def parse_clause(src):
+    tree = _Lazy().visit(ast.parse(src.strip(), mode="eval"))
+    ast.fix_missing_locations(tree)
+    return tree
+
+
 class _OldRewriter(ast.NodeTransformer):
     def __init__(self):
         self.olds = []
@@ -133,16 +151,16 @@ def run_case(c: api.FnContract, args: dict, call=None):
     env.update(pre_args)
     for r in c.requires:
         try:
-            if not eval(compile(ast.Expression(ast.parse(r.strip(), mode="eval").body), "<requires>", "eval"), env):
+            if not eval(compile(parse_clause(r), "<requires>", "eval"), env):
                 return {"status": "skip"}
         except Exception as e:  # noqa
             return {"status": "skip", "detail": f"requires raised {e!r}"}
     # pre-evaluate old(...) sub-expressions and raises-conditions in the pre-state
     compiled = {}
     oldvals = {}
-    for nm, e in c.ensures.items():
+    for nm, e in list(c.ensures.items()) + [("bounded:" + k, v) for k, v in c.bounded_ensures.items()]:
         rw = _OldRewriter()
-        tree = rw.visit(ast.parse(e.strip(), mode="eval"))
+        tree = rw.visit(parse_clause(e))
         ast.fix_missing_locations(tree)
         vals = {}
         for k, on in enumerate(rw.olds):
@@ -154,7 +172,7 @@ def run_case(c: api.FnContract, args: dict, call=None):
     raise_conds = {}
     for exc, cnd in c.raises.items():
         try:
-            raise_conds[exc] = bool(eval(compile(ast.Expression(ast.parse(cnd.strip(), mode="eval").body), "<raises>", "eval"), env))
+            raise_conds[exc] = bool(eval(compile(parse_clause(cnd), "<raises>", "eval"), env))
         except Exception as ex:  # noqa
             raise_conds[exc] = ex
     # call
@@ -190,5 +208,5 @@ def run_case(c: api.FnContract, args: dict, call=None):
         except Exception as ex:  # noqa
             return {"status": "fail", "clause": f"post.{nm}", "detail": f"clause raised {ex!r}"}
         if not ok:
-            return {"status": "fail", "clause": f"post.{nm}", "detail": f"false: {c.ensures[nm]}", "result": repr(result)[:500]}
+            return {"status": "fail", "clause": f"post.{nm}", "detail": f"false: {c.ensures.get(nm) or c.bounded_ensures.get(nm[8:])}", "result": repr(result)[:500]}
     return {"status": "ok"}
